@@ -75,7 +75,7 @@ Final ==
        IF Len(R.rows) = 0 THEN left = {} /\ E.content = <<>>
        ELSE /\ Cardinality(left) = 1
             /\ TRUE = (Pairs(E.content) = Pairs(Rec[files[CHOOSE f \in left : TRUE]].content))
-    /\ IsContent(E.content)
+    /\ TRUE = IsContent(E.content)
     /\ TRUE = (Pairs(E.content) = KvFile(R.mode, R.rows))             \* = merge of all rows
     /\ E.len = Len(E.content)
     \* without repeated keys: byte-identical to a sorted build
